@@ -319,6 +319,9 @@ def run(ctx):
     check_synrcvd_ack(ctx)
     from . import seqprims
     seqprims.check_ack_processing(ctx, "T-ACKEST")
+    seqprims.check_receive(ctx, "T-RECV")
+    seqprims.check_send(ctx, "T-SEND")
+    seqprims.check_accept(ctx, "T-ACCEPT")
 
     # ---------------------------------------------------------------- T-ACK-PRUNE
     m = T.TcbModel(prog, ps)
